@@ -25,6 +25,14 @@ pub enum ErrKind {
     WouldBlock,
     ConnectionReset,
     InvalidData,
+    PermissionDenied,
+    ConnectionAborted,
+    NotConnected,
+    InvalidInput,
+    WriteZero,
+    OutOfMemory,
+    Unsupported,
+    NotFound,
 }
 
 impl ErrKind {
@@ -37,9 +45,17 @@ impl ErrKind {
             ErrKind::WouldBlock => io::ErrorKind::WouldBlock,
             ErrKind::ConnectionReset => io::ErrorKind::ConnectionReset,
             ErrKind::InvalidData => io::ErrorKind::InvalidData,
+            ErrKind::PermissionDenied => io::ErrorKind::PermissionDenied,
+            ErrKind::ConnectionAborted => io::ErrorKind::ConnectionAborted,
+            ErrKind::NotConnected => io::ErrorKind::NotConnected,
+            ErrKind::InvalidInput => io::ErrorKind::InvalidInput,
+            ErrKind::WriteZero => io::ErrorKind::WriteZero,
+            ErrKind::OutOfMemory => io::ErrorKind::OutOfMemory,
+            ErrKind::Unsupported => io::ErrorKind::Unsupported,
+            ErrKind::NotFound => io::ErrorKind::NotFound,
         }
     }
-    pub fn all() -> [ErrKind; 7] {
+    pub fn all() -> [ErrKind; 15] {
         [
             ErrKind::Other,
             ErrKind::UnexpectedEof,
@@ -48,6 +64,14 @@ impl ErrKind {
             ErrKind::WouldBlock,
             ErrKind::ConnectionReset,
             ErrKind::InvalidData,
+            ErrKind::PermissionDenied,
+            ErrKind::ConnectionAborted,
+            ErrKind::NotConnected,
+            ErrKind::InvalidInput,
+            ErrKind::WriteZero,
+            ErrKind::OutOfMemory,
+            ErrKind::Unsupported,
+            ErrKind::NotFound,
         ]
     }
 }
